@@ -13,11 +13,11 @@ package main
 
 import (
 	"fmt"
-	"os"
 	"go/ast"
 	"go/token"
 	"go/types"
 	"golang.org/x/tools/go/cfg"
+	"os"
 )
 
 const maxFreeLeaves = 10
